@@ -48,6 +48,7 @@ fn main() {
     let mut rep = Report::default();
     let mut cases = std::io::BufWriter::new(std::fs::File::create(format!("{outdir}/cases.txt")).unwrap());
     let mut inputs = std::io::BufWriter::new(std::fs::File::create(format!("{outdir}/inputs.txt")).unwrap());
+    let mut flags = std::io::BufWriter::new(std::fs::File::create(format!("{outdir}/flags.txt")).unwrap());
     let mut all: Vec<(Model, Vec<VarDecl>, &'static str)> = corpus().into_iter().map(|(m, d)| (m, d, "corpus")).collect();
     let gens = [(ModelGen { logic: false, arith: true }, "arith"), (ModelGen { logic: true, arith: true }, "mixed"), (ModelGen { logic: true, arith: false }, "logic"), (ModelGen { logic: false, arith: false }, "affine")];
     for i in 0..n { let (g, s) = &gens[i % 4]; let (m, d) = g.model(&mut r); all.push((m, d, s)); }
@@ -96,6 +97,8 @@ fn main() {
         if replay_in_model {
             writeln!(cases, "{line}").unwrap();
             writeln!(inputs, "{text}").unwrap();
+            // did the implementation's own bound analysis find the model infeasible? (where f64 ties may legitimately change more than numbers)
+            writeln!(flags, "{}", if an.detected_infeasible { "I" } else { "-" }).unwrap();
         }
         let l = match &res {
             Ok(l) => { rep.count("compiled.ok"); l }
